@@ -101,14 +101,14 @@ static std::string oracle(const Case& c) {
 
 static void run() {
     setup(); Args& a = W().args; Evidence& ev = W().ev; const model::Golden& g = model::Golden::get();
-    if (a.worker == 0) { Case c; c.set("kind", "registry"); set_current(c); std::string m = oracle(c); if (!m.empty()) { record_failure(c, m); return; } }
-    for (size_t li = 0; li < g.langs.size(); li++) if ((int)(li % (size_t)a.nworkers) == a.worker) { Case c; c.set("kind", "static"); c.set("lang", g.langs[li].name_en); set_current(c); std::string m = oracle(c); if (!m.empty()) { record_failure(c, m); return; } }
+    if (a.worker == 0) { Case c; c.set("kind", "registry"); set_current(c); std::string m = oracle(c); if (!m.empty() && enum_fail(c, m)) return; }
+    for (size_t li = 0; li < g.langs.size(); li++) if ((int)(li % (size_t)a.nworkers) == a.worker) { Case c; c.set("kind", "static"); c.set("lang", g.langs[li].name_en); set_current(c); std::string m = oracle(c); if (!m.empty() && enum_fail(c, m)) return; }
     // exhaustive placements: language x index x position.  Chinese decodes are ~50x slower, so the unit of sharding is (lang, index).
     uint64_t idx = 0, done = 0; bool with_auto = true;
     for (int pos = 1; pos <= 16; pos++) for (size_t li = 0; li < g.langs.size(); li++) for (unsigned index = 0; index < 2048; index++) {
         if ((int)(idx++ % (uint64_t)a.nworkers) != a.worker) continue;
         Case c; c.set("kind", "place"); c.set("lang", g.langs[li].name_en); c.set("index", index); c.set("pos", (uint64_t)pos); c.set("auto", with_auto && g.langs[li].name_en.rfind("Chinese", 0) != 0 ? 1 : (a.thorough() ? 1 : 0));
-        set_current(c); std::string m = oracle(c); done++; if (!m.empty()) { record_failure(c, m); return; }
+        set_current(c); std::string m = oracle(c); done++; if (!m.empty() && enum_fail(c, m)) return;
     }
     ev.enumerated["placements language x index x position (10 x 2048 x 16) [this worker's shard]"] += done;
 }
